@@ -3,7 +3,7 @@ import ast
 import copy
 from fractions import Fraction
 import z3
-from .vals import (SV, Opt, Inf, Vec, Mat, Obj, SList, Forall, Exists, Func, Builtin, ClassRef, ExcClass, ModuleRef,
+from .vals import (SV, Opt, Inf, Vec, Mat, Obj, SList, Forall, Exists, Hyp, Func, Builtin, ClassRef, ExcClass, ModuleRef,
                    Unsupported, StrS, fresh, fresh_fun, to_frac, is_num, z3num)
 from .ops import Ops, term, boolterm, mk, is_scalar, is_real, UF
 from . import axioms
@@ -79,6 +79,8 @@ class Path:
         self.branch_log = []
         self.alloc = []            # objects allocated during the path (fresh)
         self.dims = {}
+        self.qctx = []             # bound placeholders of the universal clause being frozen (definitions inside
+        #                            it become functions of them)
 
     # ---- registries
     def strconst(self, s):
@@ -96,6 +98,14 @@ class Path:
         if z3.is_int_value(i):
             return
         self.idx.setdefault(i.get_id(), i)
+
+    def fresh_def(self, prefix, sort):
+        """fresh definitional symbol; inside a universal clause it is a function of the bound variables"""
+        if not self.qctx:
+            return fresh(prefix, sort)
+        from .vals import fresh_fun
+        f = fresh_fun(prefix, *([z3.IntSort()] * len(self.qctx)), sort)
+        return f(*self.qctx)
 
     def assume(self, t):
         if isinstance(t, Forall):
@@ -127,18 +137,32 @@ class Path:
         ks = [fresh('bv', z3.IntSort()) for _ in range(f.nvars)]
         self.spec_mode += 1
         saved_idx = dict(self.idx)
+        n_pc, n_univ = len(self.pc), len(self.univ)
+        outer = list(self.qctx)
+        self.qctx = outer + ks
         try:
             body = f.body(*[SV(k) for k in ks])
         finally:
             self.spec_mode -= 1
             self.idx = saved_idx           # index terms over the bound placeholder are not ground terms
+            self.qctx = outer
+        # definitions introduced while evaluating the body (fresh functions of the bound variables) hold for every
+        # value of the bound variables; universal clauses assumed inside become clauses over both variable sets
+        side = self.pc[n_pc:]
+        del self.pc[n_pc:]
+        nested = self.univ[n_univ:]
+        del self.univ[n_univ:]
         if isinstance(body, Forall):
             raise Unsupported('nested Forall assumption')
         if f.nvars == 1:
             rng = z3.And(term(f.lo) <= ks[0], ks[0] < term(f.hi))
         else:
             rng = z3.And(*[z3.And(term(lo) <= k, k < term(hi)) for k, lo, hi in zip(ks, f.lo, f.hi)])
-        return axioms.Frozen(ks, z3.Implies(rng, boolterm(body)))
+        for nu in nested:
+            if len(ks) + len(nu.ks) > 2:
+                raise Unsupported('universal clause nested deeper than two variables')
+            self.univ.append(axioms.Frozen(ks + nu.ks, nu.tmpl))
+        return axioms.Frozen(ks, z3.And(*side, z3.Implies(rng, boolterm(body))) if side else z3.Implies(rng, boolterm(body)))
 
     def oblige(self, name, goal, kind='ensures', where=None):
         """record proof obligation: current hypotheses => goal"""
@@ -160,9 +184,15 @@ class Path:
                 self.spec_mode -= 1
             if isinstance(body, Forall):
                 raise Unsupported('nested Forall goal: use forall2')
+            if isinstance(body, Hyp):
+                self.oblige_hyp(name, body, kind, where, extra=[rng])
+                return
             g = z3.Implies(rng, boolterm(body))
             self.obligs.append(Oblig(name, list(self.pc), list(self.univ), g, dict(self.idx),
                                      {k: dict(v) for k, v in self.apps.items()}, list(self.sums), kind, where))
+            return
+        elif isinstance(goal, Hyp):
+            self.oblige_hyp(name, goal, kind, where)
             return
         elif isinstance(goal, Exists):
             # hyps /\ guard /\ (forall i: not body(i)) |- False
@@ -178,6 +208,18 @@ class Path:
             goal = boolterm(goal)
         self.obligs.append(Oblig(name, list(self.pc), list(self.univ), goal, dict(self.idx),
                                  {k: dict(v) for k, v in self.apps.items()}, list(self.sums), kind, where))
+
+    def oblige_hyp(self, name, h, kind, where, extra=()):
+        n_pc, n_univ = len(self.pc), len(self.univ)
+        for e in extra:
+            self.pc.append(e)
+        for x in h.hyps:
+            self.assume(x)
+        try:
+            self.oblige(name, h.goal, kind, where)
+        finally:
+            del self.pc[n_pc:]
+            del self.univ[n_univ:]
 
     def hyps(self, extra=()):
         return axioms.build_hyps(self.engine, list(self.pc) + list(extra), self.univ, self.idx, self.apps, self.sums, self)
@@ -254,8 +296,10 @@ class Path:
             return True
         if hasattr(v, 'nonempty'):
             return self.truth(v.nonempty(self.interp))
-        if type(v).__name__ == 'EnumVal':
+        if type(v).__name__ in ('EnumVal', 'EnumSym'):
             return True
+        if type(v).__name__ == 'EnumValueSym':
+            return self.branch(boolterm(self.interp.sbool(v)))
         raise Unsupported(f'truthiness of {type(v).__name__}')
 
     def unwrap(self, o, what='value'):
